@@ -229,20 +229,16 @@ def run(pid, tier, seed):
         d["pts"] = points_for(t, tier, rnd) if J.size(t) < 150 else points_for(t, "quick", rnd)[:8]
         rows.append(d)
         cases.append((t, b))
-    work = tlcrun.scratch_dir("reduce")
-    try:
-        trace = os.path.join(work, "trace.ndjson")
-        write_ndjson(trace, rows)
-        res = tlcrun.run("ReduceCases", "ReduceCases.cfg", trace_file=trace, timeout=(900 if tier == "quick" else 3400))
-    finally:
-        shutil.rmtree(work, ignore_errors=True)
-    if res["violated"]:
-        raise Machinery(f"design-level invariant {res['violated']} violated in ReduceCases (a model step is unsound and is not the named finding)\n"
-                        + "\n".join(l for l in res["out"].splitlines()[-40:] if not l.startswith('"{')))
-    verd = {l["i"]: l["v"] for l in res["lines"] if isinstance(l, dict) and "i" in l}
+    lines, results = tlcrun.run_chunked("ReduceCases", "ReduceCases.cfg", rows, chunk=6000, timeout=(900 if tier == "quick" else 2400))
+    for res in results:
+        if res["violated"]:
+            raise Machinery(f"design-level invariant {res['violated']} violated in ReduceCases (a model step is unsound and is not the named finding)\n"
+                            + "\n".join(l for l in res["out"].splitlines()[-40:] if not l.startswith('"{')))
+    verd = {l["i"]: l["v"] for l in lines if isinstance(l, dict) and "i" in l}
     if len(verd) != len(rows):
         raise Machinery(f"verdict lines {len(verd)} != events {len(rows)}")
-    rep.add_tlc(res)
+    for res in results:
+        rep.add_tlc(res)
     ts_cov = {}
     if REPLAY is None:
         # design level, independent of the implementation: the rewrite MODEL as a transition system over the rule universe -
